@@ -395,6 +395,10 @@ def bad_stock_calls():
     B["stock_array_other_items"] = lambda E: SimpleFlowDrivenStock(dims=E.tx.dims, outflow=StockArray(dims=other_time(E, [1990, 1991, 1993])))
     B["stock_array_prefix_dims"] = lambda E: SimpleFlowDrivenStock(dims=E.tx.dims, inflow=StockArray(dims=E.ds("t")))
     B["stock_array_extended_dims"] = lambda E: SimpleFlowDrivenStock(dims=E.tx.dims, outflow=StockArray(dims=E.ds("tab")))
+    # all three arrays given, all over the same foreign dimension order: agreeing with each other is not agreeing with the stock
+    B["stock_all_three_arrays_other_order"] = lambda E: SimpleFlowDrivenStock(dims=E.tx.dims, stock=StockArray(dims=E.ds("at")), inflow=StockArray(dims=E.ds("at")), outflow=StockArray(dims=E.ds("at")))
+    B["stock_all_three_arrays_other_letters"] = lambda E: SimpleFlowDrivenStock(dims=E.tx.dims, stock=StockArray(dims=E.ds("tb")), inflow=StockArray(dims=E.ds("tb")), outflow=StockArray(dims=E.ds("tb")))
+    B["dsm_all_three_arrays_other_order"] = lambda E: InflowDrivenDSM(dims=E.tx.dims, lifetime_model=FixedLifetime, stock=StockArray(dims=E.ds("at")), inflow=StockArray(dims=E.ds("at")), outflow=StockArray(dims=E.ds("at")))
     B["dsm_time_not_first_lifetime_class"] = lambda E: InflowDrivenDSM(dims=E.ds("at"), lifetime_model=FixedLifetime)
     B["dsm_time_not_first_lifetime_instance"] = lambda E: InflowDrivenDSM(dims=E.ds("at"), lifetime_model=FixedLifetime(dims=E.ds("at"), mean=2.0))
     B["sdsm_time_not_first"] = lambda E: StockDrivenDSM(dims=E.ds("at"), lifetime_model=NormalLifetime, stock=StockArray(dims=E.ds("at")))
